@@ -141,8 +141,8 @@ func SessionC18(t *tape.Tape) *core.RunResult {
 		return true
 	}
 	checkGame := func(e *engSim, when string) bool {
-		if e.busy {
-			return true
+		if e.busy || k.LockHeld() {
+			return true // a client task is inside an Engine call: the controller must not queue up behind it
 		}
 		if p := e.b.E.Position(); p != e.before {
 			res.Violate("C18", "analysis-changed-game", steps, "%s: Engine.Position() %s analysis is %q, before it was %q", e.name, when, p, e.before)
@@ -177,6 +177,21 @@ func SessionC18(t *tape.Tape) *core.RunResult {
 				res.Violate("C18", "analysis-stuck", steps, "an analysis with a depth limit neither runs nor ends")
 				return false
 			}
+			var run []*Task
+			for _, x := range ps {
+				if x.Point == "engine.lock" && k.LockHeld() {
+					continue
+				}
+				if len(x.Point) > 5 && x.Point[len(x.Point)-5:] == ".done" {
+					continue
+				}
+				run = append(run, x)
+			}
+			if len(run) == 0 {
+				res.Violate("C18", "analysis-stuck", steps, "nothing can run although an analysis is open")
+				return false
+			}
+			ps = run
 			tk := ps[0]
 			cr := 20000
 			if random {
@@ -257,15 +272,74 @@ func SessionC18(t *tape.Tape) *core.RunResult {
 			return res
 		}
 	}
+	// sometimes the first engine's analysis is halted at a tape-chosen moment by a client task: what it
+	// has reported by then, and what Halt returns, must still be the solo run's iterations
+	var haltPV *search.PV
+	if t.Chance(1, 3) {
+		e0 := es[0]
+		go func() {
+			k.Park("clientH.halt")
+			pv, err := e0.b.E.Halt(ctx)
+			if err == nil {
+				haltPV = &pv
+			}
+			k.Park("clientH.done")
+		}()
+		k.Wait()
+		k.Parked()
+		res.Fault("halt@step")
+	}
 	if !runAll(es, true) {
 		if len(res.Violations) > 0 {
 			return res
 		}
 		return finishBudget()
 	}
+	// a halter that has not run (or not finished) yet does so now: the controller must never queue up
+	// behind a client that sits inside an Engine call
+	for n := 0; n < 200; n++ {
+		k.Wait()
+		var pend *Task
+		for _, tk := range k.Parked() {
+			if tk.Role == "clientH" && !(len(tk.Point) > 5 && tk.Point[len(tk.Point)-5:] == ".done") {
+				pend = tk
+			}
+		}
+		if pend == nil {
+			break
+		}
+		if pend.Point == "engine.lock" && k.LockHeld() {
+			break
+		}
+		k.Release(pend, 0)
+	}
+	k.Wait()
+	if k.LockHeld() {
+		return finishBudget()
+	}
 	for _, e := range es {
 		if !checkGame(e, "after") {
 			return res
+		}
+		if haltPV != nil && e == es[0] {
+			// halted: a prefix of the solo run's iterations, and Halt's own result is one of them
+			hp := recOf(*haltPV)
+			all := append(append([]pvRec{}, e.pvs...), hp)
+			for _, r := range all {
+				if r.Depth < 1 || r.Depth > len(ref) {
+					if r.Depth == 0 {
+						continue
+					}
+					res.Violate("C18", "search-not-deterministic", steps, "%s: a halted analysis reported depth %d, beyond the limit %d", e.name, r.Depth, depth)
+					return res
+				}
+				if r != ref[r.Depth-1] {
+					res.Violate("C18", "search-not-deterministic", steps, "%s (wiring %s, noise %d, game %q): halted by a client, it reported for depth %d %+v; the solo run gave %+v", e.name, w, noise, g.FEN(), r.Depth, r, ref[r.Depth-1])
+					return res
+				}
+			}
+			res.Probe("halted-analysis-compared-with-solo")
+			continue
 		}
 		if len(e.pvs) != len(ref) {
 			res.Violate("C18", "search-not-deterministic", steps, "%s reported %d iterations, the solo run of the same wiring, game and depth %d", e.name, len(e.pvs), len(ref))
